@@ -13,7 +13,11 @@ MinI(a, b) == IF a < b THEN a ELSE b
 HelloBytes(e) == EncMsg("ClientHello", 0, e.hello)
 Negotiated(e) == MinI(e.crevEff, e.srev)
 \* a hello is due in time when it arrives before the handshake time-out (with a margin for scheduling)
-InTime(e) == e.behaviour = "hello" \/ (e.behaviour = "late" /\ e.delayMs + 150 < e.handshakeTimeoutMs)
+\* (a caller that cancels first, or a server that stops reading before the addendum can be written, ends it otherwise)
+Cancels(e) == e.cancelMs > 0
+BlocksAddendum(e) == e.behaviour = "blockw" /\ Negotiated(e) >= Addendum
+InTime(e) == \/ (e.behaviour \in {"hello", "blockw"} /\ ~BlocksAddendum(e))        \* done at once, before any cancellation
+             \/ (e.behaviour = "late" /\ e.delayMs + 150 < e.handshakeTimeoutMs /\ (Cancels(e) => e.delayMs + 40 < e.cancelMs))
 SameServer(a, b) == /\ a.name = b.name /\ a.major = b.major /\ a.minor = b.minor /\ a.revision = b.revision
 HandshakeOK(e) ==
   /\ e.helloParsed /\ e.dialed = 1
@@ -32,7 +36,11 @@ HandshakeOK(e) ==
             /\ (e.behaviour = "exception" => e.result = "exc" /\ e.excGot = e.excSent)
             /\ e.written = HelloBytes(e)
             /\ e.connClosed
-            /\ (e.behaviour = "stall" => e.elapsedMs + 50 >= e.handshakeTimeoutMs)
+            /\ (e.behaviour = "stall" /\ ~Cancels(e) => e.elapsedMs + 50 >= e.handshakeTimeoutMs)
+            /\ (BlocksAddendum(e) /\ ~Cancels(e) => e.elapsedMs + 50 >= e.handshakeTimeoutMs)
+            \* cancellation during the handshake - while waiting for the hello or blocked in the addendum write -
+            \* returns the context's error promptly (Handshake!CancelEndsIt); 300 ms of scheduling slack
+            /\ (Cancels(e) /\ e.behaviour \in {"stall", "blockw"} => e.result = "ctx" /\ e.elapsedMs <= e.cancelMs + e.readTimeoutMs + 300)
 
 \* ---------------------------------------------------------------- the client's bytes for one query
 \* one Data packet at position p of stream s: code, table name, block (inside one frame iff compression is on)
